@@ -114,6 +114,7 @@ var c20TextInputs = []string{"caf\xe9 au lait", "cut off \xe4\xb8", "\xff\xfe\xf
 	// control bytes and the sequences terminals, pagers and log viewers interpret
 	"\x1b[31mred\x1b[0m plain", "\x1b]0;title\x07after", "lone \x1b esc \x1b[", "\x1b[2J\x1b[H", "bs\x08\x08 del\x7f bel\x07 ff\x0c vt\x0b", "\x01\x02\x03\x04\x05\x06\x0e\x0f\x10\x1a\x1c\x1f",
 	"c1 \u009b31m csi \u0085 nel", "\u2028 ls \u2029 ps \u202e rtl \u200b zw", "\x1b[38;5;196mx\x1b[m\x1b(B", "\x1bPdcs\x1b\\ \x1b^pm\x1b\\ \x1b_apc\x1b\\"}
+
 func init() {
 	// long inputs: a message on both sides of 4 KiB and 64 KiB, and one of 300 000 bytes (pipes, scanners and loggers have buffers)
 	for _, n := range []int{4095, 4096, 4097, 65535, 65536, 65537, 300000} {
